@@ -475,3 +475,45 @@ def unit_add_field_format_row():
                                         "validated_field_name / validated_python_name / _create_field_format_class / add_field_format are used through their contracts; a dotted type has one part here (the qualifier's last part is what _create_class uses)"]})
         return out
     return ProofUnit("interface.Cid.add_field_format_row", "add_field_format_row: name, duplicate, empty mark, type, construction arguments, length soundness per format, example, errors at the current row", ["C09", "C20", "C10"], make, None)
+
+
+def unit_add_field_format():
+    FIELD = Abs("Field"); FS = sort_of(FIELD)
+    def setup(ex, st):
+        names, c1 = fresh(UFList(STR), "names"); fmts, c2 = fresh(UFList(FIELD), "formats"); st.pc.extend(c1 + c2)
+        imap, c3 = fresh_ufdict(STR, z3.IntSort(), "index_map"); fmap, c4 = fresh_ufdict(STR, FS, "format_map", None, lambda st_, z: Sym(FIELD, z)); st.pc.extend(c3 + c4)
+        ff = fresh(FIELD, "field_format")[0]; fname = ex.absfun_s("field_name", [FS], z3.StringSort())
+        # data-structure invariant of Cid (established by __init__, preserved here): the four containers are parallel
+        j = z3.Int("j!inv"); k = z3.String("k!inv")
+        inv = z3.And(fmts.length == names.length, imap.size == names.length, fmap.size == names.length,
+                     z3.ForAll([j], z3.Implies(z3.And(0 <= j, j < names.length), z3.And(imap.has(names.at(j)), imap.val(names.at(j)) == j, fmap.has(names.at(j)), fmap.val(names.at(j)) == fmts.at(j), fname(fmts.at(j)) == names.at(j)))),
+                     z3.ForAll([k], z3.Implies(imap.has(k), z3.And(0 <= imap.val(k), imap.val(k) < names.length, names.at(imap.val(k)) == k))),
+                     z3.ForAll([k], imap.has(k) == fmap.has(k)))
+        st.pc.append(inv)
+        st.pc.append(z3.Not(fmap.has(fname(ff.z))))        # precondition (asserted by the function, established by add_field_format_row's duplicate test)
+        df = Ref("DataFormat"); st.heap[df.oid] = {}
+        loc = Ref("Location"); st.heap[loc.oid] = {}
+        self = Ref("Cid"); st.heap[self.oid] = {"_data_format": df, "_field_names": names, "_field_formats": fmts, "_field_name_to_index_map": imap, "_field_name_to_format_map": fmap, "_location": loc}
+        st.frames[-1].env.update({"self": self, "field_format": ff})
+        st.ghost.update({"this": self, "names0": names, "fmts0": fmts, "imap0": imap, "fmap0": fmap, "ff": ff})
+    def absattr_name(ex, st, recv): return Sym(STR, ex.absfun_s("field_name", [FS], z3.StringSort())(recv.z))
+    def c_appended(ex, st):
+        g = st.ghost; o = st.heap[g["this"].oid]; names = o["_field_names"]; fmts = o["_field_formats"]; n0 = g["names0"].length; ff = g["ff"].z
+        nm = ex.absfun_s("field_name", [FS], z3.StringSort())(ff); j = z3.Int("j!ap")
+        return Sym(BOOL, z3.And(names.length == n0 + 1, fmts.length == n0 + 1, names.at(n0) == nm, fmts.at(n0) == ff,
+                                z3.ForAll([j], z3.Implies(z3.And(0 <= j, j < n0), z3.And(names.at(j) == g["names0"].at(j), fmts.at(j) == g["fmts0"].at(j))))))
+    def c_maps(ex, st):
+        g = st.ghost; o = st.heap[g["this"].oid]; im = o["_field_name_to_index_map"]; fm = o["_field_name_to_format_map"]; n0 = g["names0"].length; ff = g["ff"].z
+        nm = ex.absfun_s("field_name", [FS], z3.StringSort())(ff); k = z3.String("k!mp")
+        return Sym(BOOL, z3.And(im.has(nm), im.val(nm) == n0, fm.has(nm), fm.val(nm) == ff, im.size == n0 + 1, fm.size == n0 + 1,
+                                z3.ForAll([k], z3.Implies(k != nm, z3.And(im.has(k) == g["imap0"].has(k), im.val(k) == g["imap0"].val(k), fm.has(k) == g["fmap0"].has(k), fm.val(k) == g["fmap0"].val(k))))))
+    def make(ctx):
+        c = Contract("interface.Cid.add_field_format", setup,
+                returns=[Clause(c_appended, "the-field-is-appended-last-to-names-and-formats-earlier-fields-keep-their-order", props=["C09"]),
+                         Clause(c_maps, "its-name-maps-to-its-position-and-to-the-format-no-other-entry-changes", props=["C09", "C04"])],
+                raises={}, expect=["return"], raises_only_props=["C09", "C10"],
+                modifies=["Cid._field_names", "Cid._field_formats", "Cid._field_name_to_index_map", "Cid._field_name_to_format_map"])
+        return {"contract": c, "callees": {"absattr:Field.field_name": absattr_name},
+                "assumptions": ["precondition: the name is not declared yet (add_field_format_row tests this before calling; verified there) and the Cid containers are parallel (representation invariant, preserved by this function)",
+                                "dict / list semantics: d[k] = v, list.append (A-ITER)"]}
+    return ProofUnit("interface.Cid.add_field_format", "Cid.add_field_format: names / formats / index map / format map stay parallel and order preserving", ["C09", "C04", "C10"], make, None)
